@@ -250,11 +250,47 @@ def fam_oct(rng):
     return a, b, {'family': 'oct', 'n': n, 'cells': (sorted(ca), sorted(cb))}
 
 
+def rings_apart(r1, r2):
+    """exact: the two simple rings have no common point and neither lies inside the other"""
+    F = Fraction
+
+    def orient(a, b, c):
+        v = (F(b[0]) - F(a[0])) * (F(c[1]) - F(a[1])) - (F(b[1]) - F(a[1])) * (F(c[0]) - F(a[0]))
+        return (v > 0) - (v < 0)
+
+    def onseg(a, b, c):
+        return min(a[0], b[0]) <= c[0] <= max(a[0], b[0]) and min(a[1], b[1]) <= c[1] <= max(a[1], b[1])
+    for i in range(len(r1)):
+        a, b = r1[i], r1[(i + 1) % len(r1)]
+        for j in range(len(r2)):
+            c, d = r2[j], r2[(j + 1) % len(r2)]
+            o1, o2, o3, o4 = orient(a, b, c), orient(a, b, d), orient(c, d, a), orient(c, d, b)
+            if o1 != o2 and o3 != o4:
+                return False
+            if (o1 == 0 and onseg(a, b, c)) or (o2 == 0 and onseg(a, b, d)) or (o3 == 0 and onseg(c, d, a)) or (o4 == 0 and onseg(c, d, b)):
+                return False
+    return not pt_in_ring(r1, r2[0]) and not pt_in_ring(r2, r1[0])
+
+
+def lattice_operand(rng, L):
+    parts = [lattice_polygon(rng, L)]
+    if rng.random() < 0.35:
+        for _ in range(6):
+            q = lattice_polygon(rng, L)
+            if rings_apart(parts[0], q):
+                parts.append(q)
+                break
+        else:
+            q = lattice_polygon(rng, L)
+            dx = float(L + 1) if rng.random() < 0.5 else 0.0
+            dy = 0.0 if dx else float(L + 1)
+            parts.append([(x + dx, y + dy) for (x, y) in q])
+    return ('M', [[p] for p in parts])
+
+
 def fam_lat(rng):
     L = rng.choice([4, 8, 8, 30, 1000])
-    a = ('M', [[lattice_polygon(rng, L)] for _ in range(rng.choice([1, 1, 2]))])
-    b = ('M', [[lattice_polygon(rng, L)] for _ in range(rng.choice([1, 1, 2]))])
-    return a, b, {'family': 'lat', 'L': L}
+    return lattice_operand(rng, L), lattice_operand(rng, L), {'family': 'lat', 'L': L}
 
 
 def fam_gp(rng, prec=64):
